@@ -265,7 +265,7 @@ def run_check(prop, tier):
             mods += ["Amoco.Proofs.ExprBits", "Amoco.Proofs.ExprArith", "Amoco.Proofs.ExprCst", "Amoco.Proofs.ExprCompSem",
                      "Amoco.Proofs.ExprEvalSound", "Amoco.Proofs.ExprTableSem", "Amoco.Proofs.ExprSoundBase",
                      "Amoco.Proofs.ExprTablePres", "Amoco.Proofs.ExprSound", "Amoco.Proofs.ExprSoundOps",
-                     "Amoco.Proofs.ExprSoundSlice", "Amoco.Proofs.ExprSoundEqn", "Amoco.Proofs.ExprSoundSimp"]
+                     "Amoco.Proofs.ExprSoundSlice", "Amoco.Proofs.ExprSoundBitslice", "Amoco.Proofs.ExprSoundEqn", "Amoco.Proofs.ExprSoundSimp"]
         p = subprocess.run(["lake", "env", "leanchecker"] + mods, cwd=LEAN, stdout=subprocess.PIPE, stderr=subprocess.STDOUT,
                            text=True, timeout=1800)
         ck.oblige("leanchecker " + " ".join(mods), p.returncode == 0, p.stdout[-1500:])
@@ -388,6 +388,22 @@ def run_check(prop, tier):
         return False
 
     compq = []   # (dump, script, action, cx) for the K-tie
+    ktie = {"n": 0}
+
+    def flush_ktie():
+        """K-tie: the compiled checker `compWF` (sound: Amoco.C12.compWF_sound) on the comps of real results;
+        done in batches so that a thorough run does not keep every dump in memory."""
+        if not compq:
+            return
+        reqs = [{"op": "expr.compwf", "dump": d} for d, _, _, _ in compq]
+        for (d, script, a, cx), ans in zip(compq, drv.ask_many(reqs)):
+            ktie["n"] += ans.get("comps", 0)
+            if ans.get("problems"):
+                sig = "C12:compwf:%s:%s" % (a[0], shape(script)[:200])
+                ck.report(sig, "comp of a real result violates CompWF: %s (script %s)" % (ans["problems"][0], json.dumps(script)[:300]),
+                          "checker", "Amoco.C12.compWF_sound (K-tie)", case={"script": script, "action": a, "complexity": cx},
+                          real=d, model=ans)
+        del compq[:]
 
     def process(script, cx, acts, vals, tag):
         w = F.width(script)
@@ -411,7 +427,10 @@ def run_check(prop, tier):
                 ck.count("real.global-bit-singleton-mutated")
             v = judge(script, cx, a, real, decl, m, vals, w)
             if real[0] == "ok" and not want_c01:
-                compq.append((real[1], script, a, cx))
+                if not want_c01:
+                    compq.append((real[1], script, a, cx))
+                    if len(compq) >= 400:
+                        flush_ktie()
             if isinstance(m, str):
                 ck.count("model." + m)
                 continue
@@ -495,17 +514,9 @@ def run_check(prop, tier):
 
     # ---- K-tie: CompWF of real comps (C12) -------------------------------------------------------
     if not want_c01:
-        reqs = [{"op": "expr.compwf", "dump": d} for d, _, _, _ in compq]
-        ncomp = 0
-        for (d, script, a, cx), ans in zip(compq, drv.ask_many(reqs)):
-            ncomp += ans.get("comps", 0)
-            if ans.get("problems"):
-                sig = "C12:compwf:%s:%s" % (a[0], shape(script)[:200])
-                ck.report(sig, "comp of a real result violates CompWF: %s (script %s)" % (ans["problems"][0], json.dumps(script)[:300]),
-                          "checker", "Amoco.C12.compWF_sound (K-tie)", case={"script": script, "action": a, "complexity": cx},
-                          real=d, model=ans)
-        ck.cov["real_comps_checked"] = ncomp
-        ck.oblige("K-tie CompWF on %d real comps" % ncomp, True)
+        flush_ktie()
+        ck.cov["real_comps_checked"] = ktie["n"]
+        ck.oblige("K-tie CompWF on %d real comps" % ktie["n"], True)
     drv.close()
 
     for b in broken:
